@@ -20,7 +20,7 @@ use crate::{
 use core::task::{Context, Poll, Waker};
 use s2n_quic_core::{
     endpoint,
-    frame::MaxStreams,
+    frame::{MaxData, MaxStreamData, MaxStreams, StopSending},
     packet::number::{PacketNumberRange, PacketNumberSpace},
     stream::{ops, StreamId, StreamType},
     transport::parameters::{InitialFlowControlLimits, InitialStreamLimits},
@@ -54,10 +54,29 @@ impl Streams {
     /// `server`: local endpoint type; peer limits = initial MAX_STREAMS of the peer's transport
     /// parameters; local limits = the application's own concurrency limits
     pub fn new(server: bool, peer_bidi: u64, peer_uni: u64, local_bidi: u64, local_uni: u64) -> Self {
+        Self::with_flow_limits(server, peer_bidi, peer_uni, local_bidi, local_uni, 65536, 4096)
+    }
+
+    /// as `new`, with the peer's initial MAX_DATA and initial MAX_STREAM_DATA (all stream kinds)
+    pub fn with_flow_limits(
+        server: bool,
+        peer_bidi: u64,
+        peer_uni: u64,
+        local_bidi: u64,
+        local_uni: u64,
+        peer_max_data: u64,
+        peer_stream_window: u64,
+    ) -> Self {
         let stream_limits = InitialStreamLimits {
             max_data_bidi_local: VarInt::from_u32(4096),
             max_data_bidi_remote: VarInt::from_u32(4096),
             max_data_uni: VarInt::from_u32(4096),
+        };
+        let w = VarInt::new(peer_stream_window).unwrap();
+        let peer_stream_limits = InitialStreamLimits {
+            max_data_bidi_local: w,
+            max_data_bidi_remote: w,
+            max_data_uni: w,
         };
         let local = InitialFlowControlLimits {
             stream_limits,
@@ -66,8 +85,8 @@ impl Streams {
             max_open_remote_unidirectional_streams: VarInt::from_u32(100),
         };
         let peer = InitialFlowControlLimits {
-            stream_limits,
-            max_data: VarInt::from_u32(65536),
+            stream_limits: peer_stream_limits,
+            max_data: VarInt::new(peer_max_data).unwrap(),
             max_open_remote_bidirectional_streams: VarInt::new(peer_bidi).unwrap(),
             max_open_remote_unidirectional_streams: VarInt::new(peer_uni).unwrap(),
         };
@@ -134,6 +153,89 @@ impl Streams {
                 None,
             )
             .is_ok()
+    }
+
+    fn sid(id: u64) -> StreamId {
+        StreamId::from_varint(VarInt::new(id).unwrap())
+    }
+
+    /// application write on stream `id`: bytes accepted, or -1 on error
+    pub fn push(&mut self, id: u64, data: Vec<u8>) -> i64 {
+        let mut api = ConnectionApiCallContext::from_wakeup_handle(&self.handle);
+        let mut chunks = [bytes::Bytes::from(data)];
+        let mut req = ops::Request::default();
+        req.send(&mut chunks[..]);
+        match self.manager.poll_request(Self::sid(id), &mut api, &mut req, None) {
+            Ok(resp) => resp.tx().map_or(0, |t| t.bytes.consumed as i64),
+            Err(_) => -1,
+        }
+    }
+
+    pub fn finish(&mut self, id: u64) -> i64 {
+        let mut api = ConnectionApiCallContext::from_wakeup_handle(&self.handle);
+        let mut req = ops::Request::default();
+        req.finish();
+        match self.manager.poll_request(Self::sid(id), &mut api, &mut req, None) {
+            Ok(_) => 0,
+            Err(_) => -1,
+        }
+    }
+
+    pub fn stop_sending(&mut self, id: u64, code: u64) {
+        let _ = self.manager.on_stop_sending(&StopSending {
+            stream_id: VarInt::new(id).unwrap(),
+            application_error_code: VarInt::new(code).unwrap(),
+        });
+    }
+
+    pub fn max_stream_data(&mut self, id: u64, v: u64) {
+        let _ = self.manager.on_max_stream_data(&MaxStreamData {
+            stream_id: VarInt::new(id).unwrap(),
+            maximum_stream_data: VarInt::new(v).unwrap(),
+        });
+    }
+
+    pub fn max_data(&mut self, v: u64) {
+        let _ = self.manager.on_max_data(MaxData {
+            maximum_data: VarInt::new(v).unwrap(),
+        });
+    }
+
+    /// one packet as `transmission::application::Normal::on_transmit` reaches the stream manager:
+    /// only in Normal / LossRecoveryProbing mode and when the constraint allows (re)transmission
+    pub fn transmit_with(
+        &mut self,
+        capacity: usize,
+        constraint: transmission::Constraint,
+        mode: transmission::Mode,
+    ) -> (Vec<Recorded>, u32) {
+        let mut ctx = Recorder::new(
+            capacity,
+            constraint,
+            mode,
+            self.next_packet_number,
+            endpoint::Type::Client,
+        );
+        let reachable = matches!(
+            mode,
+            transmission::Mode::Normal | transmission::Mode::LossRecoveryProbing
+        ) && (constraint.can_transmit() || constraint.can_retransmit());
+        if reachable {
+            let _ = self.manager.on_transmit(&mut ctx);
+        }
+        if !ctx.frames.is_empty() {
+            self.next_packet_number += 1;
+        }
+        (ctx.frames, ctx.constraint_breaches)
+    }
+
+    pub fn loss(&mut self, lo: u64, hi: u64) {
+        let space = PacketNumberSpace::ApplicationData;
+        let range = PacketNumberRange::new(
+            space.new_packet_number(VarInt::new(lo).unwrap()),
+            space.new_packet_number(VarInt::new(hi).unwrap()),
+        );
+        self.manager.on_packet_loss(&range);
     }
 
     /// one packet of the given capacity
